@@ -14,6 +14,9 @@ Definition wf_case (c : case) : bool :=
   | L125 hi floor _ => in_u64 hi && (1 <=? floor) && in_u64 floor
   | IsCanon v _ => is_zat v
   | Stored cross buffer _ => forallb is_zat cross && is_zat buffer
+  | PlanNew total nc cap maxd mind buffer fee _ _ _ =>
+      is_zat total && is_zat buffer && is_zat fee && is_zat maxd && is_zat mind && is_pow10 mind
+      && in_u64 nc && (0 <=? cap) && in_u64 cap
   | Engine notes cap buffer fee o _ =>
       forallb is_zat notes && is_zat (sumZ notes) && is_zat buffer && is_zat fee && (1 <=? cap) && in_u64 cap
       && match o with Ok (_, ntx) => in_u64 ntx | _ => true end
